@@ -81,8 +81,7 @@ func NewTLSStub(name string, http2 bool) *Stub { return newStub(name, true, http
 
 func newStub(name string, useTLS, h2 bool) *Stub {
 	s := &Stub{Name: name, byID: map[string]int{}}
-	srv := httptest.NewUnstartedServer(http.HandlerFunc(s.serve))
-	srv.Config.ErrorLog = nil
+	srv := &httptest.Server{Listener: ListenRetry(), Config: &http.Server{Handler: http.HandlerFunc(s.serve)}}
 	if useTLS {
 		srv.EnableHTTP2 = h2
 		srv.StartTLS()
@@ -281,6 +280,21 @@ func (s *Stub) Reset() {
 // HostPort returns host:port of the stub.
 func (s *Stub) HostPort() string {
 	return strings.TrimPrefix(strings.TrimPrefix(s.URL, "https://"), "http://")
+}
+
+// ListenRetry opens a loopback listener on an ephemeral port. The checks open tens of thousands of short-lived loopback
+// connections; when the ephemeral range is crowded with TIME_WAIT sockets a bind can fail transiently, so it is retried
+// for up to 60 s before panicking (httptest would panic at once).
+func ListenRetry() net.Listener {
+	var l net.Listener
+	var err error
+	for attempt := 0; attempt < 600; attempt++ {
+		if l, err = net.Listen("tcp", "127.0.0.1:0"); err == nil {
+			return l
+		}
+		time.Sleep(100 * time.Millisecond)
+	}
+	panic("bed: cannot open a loopback listener: " + err.Error())
 }
 
 // FreeAddr returns a 127.0.0.1:port that nothing listens on (for unreachable endpoints).
